@@ -392,4 +392,117 @@ def bindOps : List (HOp α) → List Op
 
 end
 
+/-! ### Target points: `ravel` on the way in, `result.shape = self.shape` on the way out
+
+`set_interpolation_points(x, y, z)` (interpolator.py) keeps `self.shape = x.shape`
+and hands the coordinate arrays to `_create_particle_array`, which makes ONE
+target particle per element: `xr = x.ravel(); yr = y.ravel(); zr = z.ravel()`,
+`get_particle_array(name='interpolate', x=xr, y=yr, z=zr, …)`.  `ndarray.ravel()`
+(default `order='C'`) lists the elements in LOGICAL row-major order — the last
+index varies fastest — whatever the memory layout of the array is (C ordered,
+Fortran ordered, a transposed view, a strided slice, negative strides).
+`interpolate` copies the per-particle values (`self.pa.prop`, or
+`self.pa.prop[comp::4]` for order1) into a fresh 1-D array, assigns
+`result.shape = self.shape` (a fresh array is C contiguous: element `idx` of the
+reshaped array is the flat element with the row-major index of `idx`) and returns
+`result.squeeze()` (axes of length 1 dropped).
+
+An array argument is modelled as numpy holds it: a buffer, an offset and one
+stride per axis (both counted in elements, strides may be negative); `elem` is
+`x[idx]`.  The memory layout enters ONLY through `elem`. -/
+
+/-- number of elements of an array of shape `sh` -/
+def size : List Nat → Nat
+  | [] => 1
+  | n :: ns => n * size ns
+
+/-- `idx` is a valid multi-index of an array of shape `sh` -/
+def inBounds : List Nat → List Nat → Bool
+  | [], [] => true
+  | n :: ns, i :: is => decide (i < n) && inBounds ns is
+  | _, _ => false
+
+/-- row-major (C order) flat index of `idx` in an array of shape `sh`:
+`np.ravel_multi_index(idx, sh)` -/
+def ravelIndex : List Nat → List Nat → Nat
+  | _ :: ns, i :: is => i * size ns + ravelIndex ns is
+  | _, _ => 0
+
+/-- the multi-index whose row-major flat index is `k`: `np.unravel_index(k, sh)` -/
+def unravel : List Nat → Nat → List Nat
+  | [], _ => []
+  | _ :: ns, k => (k / size ns) :: unravel ns (k % size ns)
+
+/-- `Σ_a idx[a]·strides[a]` -/
+def memOffset : List Int → List Nat → Int
+  | s :: ss, i :: is => (i : Int) * s + memOffset ss is
+  | _, _ => 0
+
+/-- a numpy array as it lies in memory (offset and strides in elements) -/
+structure NdView (α : Type) where
+  shape : List Nat
+  strides : List Int
+  offset : Int
+  buf : List α
+
+section
+variable {α : Type} [OfNat α 0]
+
+/-- `x[idx]` -/
+def NdView.elem (v : NdView α) (idx : List Nat) : α :=
+  v.buf.getD (v.offset + memOffset v.strides idx).toNat 0
+
+/-- `x.ravel()`: the elements in logical row-major order -/
+def ravelC (v : NdView α) : List α :=
+  (List.range (size v.shape)).map (fun k => v.elem (unravel v.shape k))
+
+def mkPos (xy : α × α) (z : α) : Pos α := ⟨xy.1, xy.2, z⟩
+
+/-- `_create_particle_array(x, y, z)`: target particle `i` sits at
+`(x.ravel()[i], y.ravel()[i], z.ravel()[i])` -/
+def targetPoints (x y z : NdView α) : List (Pos α) :=
+  List.zipWith mkPos (List.zip (ravelC x) (ravelC y)) (ravelC z)
+
+end
+
+/-- `result.shape = sh; result[idx]` for a fresh (C contiguous) flat `result` -/
+def reshapedGet {β : Type} (flat : List β) (sh idx : List Nat) : Option β :=
+  flat[ravelIndex sh idx]?
+
+/-- shape of `a.squeeze()` -/
+def squeezeShape : List Nat → List Nat
+  | [] => []
+  | n :: ns => if n = 1 then squeezeShape ns else n :: squeezeShape ns
+
+/-- the index of `a` that `a.squeeze()[idx']` stands for: 0 on the dropped axes -/
+def unsqueeze : List Nat → List Nat → List Nat
+  | [], _ => []
+  | n :: ns, idx' =>
+    if n = 1 then 0 :: unsqueeze ns idx'
+    else match idx' with
+      | i :: is => i :: unsqueeze ns is
+      | [] => []
+
+section
+variable {α : Type} [OfNat α 0]
+
+/-- `interpolate(...)[idx]` BEFORE the squeeze, when the evaluator leaves
+`value p` for a target particle at position `p` (all target particles carry the
+same `h`, the source arrays are the same for all of them: what a particle gets
+is a function of where it is):
+`result = self.pa.prop.copy(); result.shape = self.shape` -/
+def interpolateGet {β : Type} (value : Pos α → β) (x y z : NdView α) (idx : List Nat) : Option β :=
+  reshapedGet ((targetPoints x y z).map value) x.shape idx
+
+/-- `interpolate(...)[idx']`: the squeezed result -/
+def interpolateSqueezedGet {β : Type} (value : Pos α → β) (x y z : NdView α)
+    (idx' : List Nat) : Option β :=
+  interpolateGet value x y z (unsqueeze x.shape idx')
+
+/-- all multi-indices of shape `sh` in row-major order -/
+def allIndices (sh : List Nat) : List (List Nat) :=
+  (List.range (size sh)).map (unravel sh)
+
+end
+
 end PysphVerif.Interp
